@@ -1562,3 +1562,171 @@ mod tests {
         assert_eq!(node.max_inbound_frame_size, 1024);
     }
 }
+
+/// Verification hooks (feature `verif`): thin, add-only wrappers that let an external
+/// harness call the private election logic directly.
+#[cfg(feature = "verif")]
+#[allow(missing_docs, missing_debug_implementations, unreachable_pub)]
+pub mod verif_hooks {
+    use super::*;
+
+    /// `elect_sessions` over `(actor pid, is_server, wire nonce)` triples.
+    pub fn elect(this_node: &str, peer: &str, candidates: &[(u64, bool, u64)]) -> Vec<u64> {
+        let candidates = candidates
+            .iter()
+            .map(|(id, is_server, nonce)| SessionElectionCandidate {
+                actor_id: ActorId::Local(*id),
+                is_server: *is_server,
+                connection_id: NonZeroU64::new(*nonce),
+            })
+            .collect();
+        elect_sessions(this_node, peer, candidates)
+            .into_iter()
+            .map(|id| id.pid())
+            .collect()
+    }
+
+    struct Dummy<M>(std::marker::PhantomData<fn() -> M>);
+
+    #[cfg_attr(feature = "async-trait", ractor::async_trait)]
+    impl<M: ractor::Message> Actor for Dummy<M> {
+        type Msg = M;
+        type State = ();
+        type Arguments = ();
+        async fn pre_start(&self, _: ActorRef<M>, _: ()) -> Result<(), ActorProcessingErr> {
+            Ok(())
+        }
+    }
+
+    /// A real `NodeServerState` whose sessions are inert actors.
+    pub struct NodeStateProbe {
+        state: NodeServerState,
+    }
+
+    impl NodeStateProbe {
+        pub async fn new(this_name: &str) -> Self {
+            let (listener, _) = Actor::spawn(
+                None,
+                Dummy::<crate::net::ListenerMessage>(std::marker::PhantomData),
+                (),
+            )
+            .await
+            .expect("dummy listener");
+            Self {
+                state: NodeServerState {
+                    node_sessions: HashMap::new(),
+                    listener,
+                    node_id_counter: 0,
+                    this_node_name: auth_protocol::NameMessage {
+                        flags: Some(auth_protocol::NodeFlags {
+                            version: PROTOCOL_VERSION,
+                        }),
+                        name: this_name.to_string(),
+                        connection_string: String::new(),
+                        connection_id: 0,
+                    },
+                    subscriptions: HashMap::new(),
+                    connection_ids: HashMap::new(),
+                    authenticated_sessions: HashSet::new(),
+                },
+            }
+        }
+
+        /// What `ConnectionOpened` does to the state; returns the session's pid.
+        pub async fn open(&mut self, is_server: bool) -> u64 {
+            let (actor, _) = Actor::spawn(
+                None,
+                Dummy::<NodeSessionMessage>(std::marker::PhantomData),
+                (),
+            )
+            .await
+            .expect("dummy session");
+            let node_id = self.state.node_id_counter;
+            let id = actor.get_id();
+            let ses = NodeServerSessionInformation::new(actor, is_server, node_id, String::new());
+            self.state.node_sessions.insert(id, ses);
+            self.state.node_id_counter += 1;
+            id.pid()
+        }
+
+        /// What the supervision handler does when a session exits.
+        pub fn close(&mut self, pid: u64) {
+            let id = ActorId::Local(pid);
+            if let Some(ses) = self.state.node_sessions.remove(&id) {
+                ses.actor.stop(None);
+            }
+            self.state.connection_ids.remove(&id);
+            self.state.authenticated_sessions.remove(&id);
+        }
+
+        pub fn register(&mut self, pid: u64, peer: &str, nonce: u64) -> bool {
+            self.state.register_session(
+                ActorId::Local(pid),
+                auth_protocol::NameMessage {
+                    flags: None,
+                    name: peer.to_string(),
+                    connection_string: String::new(),
+                    connection_id: nonce,
+                },
+            )
+        }
+
+        fn reply(r: SessionCheckReply) -> &'static str {
+            match r {
+                SessionCheckReply::NoOtherConnection => "noOther",
+                SessionCheckReply::ThisConnectionContinues => "thisContinues",
+                SessionCheckReply::OtherConnectionContinues => "otherContinues",
+                SessionCheckReply::DuplicateConnection => "duplicate",
+            }
+        }
+
+        pub fn check_candidate(&self, pid: u64) -> &'static str {
+            Self::reply(self.state.check_candidate(ActorId::Local(pid)))
+        }
+
+        pub fn check_session(&self, peer: &str, nonce: u64) -> &'static str {
+            Self::reply(self.state.check_session(&auth_protocol::NameMessage {
+                flags: None,
+                name: peer.to_string(),
+                connection_string: String::new(),
+                connection_id: nonce,
+            }))
+        }
+
+        /// `commit_authenticated`: `(candidate_survives, loser pids)`.
+        pub fn commit(&mut self, pid: u64) -> Option<(bool, Vec<u64>)> {
+            self.state
+                .commit_authenticated(ActorId::Local(pid))
+                .map(|e| {
+                    (
+                        e.candidate_survives,
+                        e.losers.iter().map(|a| a.get_id().pid()).collect(),
+                    )
+                })
+        }
+
+        pub fn is_elected(&self, pid: u64) -> bool {
+            self.state.is_elected(ActorId::Local(pid))
+        }
+
+        /// The pids `GetSessions` would list.
+        pub fn visible(&self) -> Vec<u64> {
+            let mut v: Vec<u64> = self
+                .state
+                .node_sessions
+                .keys()
+                .filter(|id| self.state.authenticated_sessions.contains(id))
+                .map(|id| id.pid())
+                .collect();
+            v.sort_unstable();
+            v
+        }
+
+        pub fn shutdown(self) {
+            self.state.listener.stop(None);
+            for ses in self.state.node_sessions.values() {
+                ses.actor.stop(None);
+            }
+        }
+    }
+}
